@@ -958,6 +958,7 @@ func main() {
 	c.Rule += " " + "Observed resources whose only field manager is the client-side one (upgrade pending); namespaced resources of one kind and one name in different namespaces."
 	c.Rule += " " + "Resources renamed by re-emitting the observed body; two steady-state reconciles after every success (no composed resource deleted or created)."
 	c.Rule += " " + "A function that answers its first call (with a requirement) and errors when called again; a still-desired name whose final desired entry has no resource body (must not be deleted)."
+	c.Rule += " " + "A collector fault (conflict, 503, 500) on the label clean-up Update or on the DELETE itself, then up to three fault-free reconciles: once one composes successfully, every resource this XR composed that is absent from the desired state is gone or terminating."
 	c.Assumptions = []string{"sim implements the apiserver rules of DESIGN.md 2.2", "functions are scripted gRPC servers; the requirement-round counter is per reconcile"}
 	c.Floor = 100
 	n := c.N(1500, 30000)
